@@ -69,6 +69,42 @@ func ringAnswers(r orb.Ring, qs []orb.Point) string {
 	return strings.Join(toks, " ")
 }
 
+// gridBox is the explicitly closed axis-parallel square [b0,b1]^2.
+func gridBox(b0, b1 float64) orb.Ring {
+	return orb.Ring{{b0, b0}, {b1, b0}, {b1, b1}, {b0, b1}, {b0, b0}}
+}
+
+// gridPolyForms mirrors Driver.C09.gridPolyForms: the ring v as a polygon's only (outer) ring, as the hole of a
+// box, as the second hole after an empty one, and the same inside multi-polygons.  One answer token per form
+// and variant (variant-major).
+const nGridPolyForms = 6
+
+func gridPolyAnswers(r, box orb.Ring, qs []orb.Point) string {
+	vs := ringVariants(r)
+	toks := make([]string, 0, nGridPolyForms*len(vs))
+	for _, v := range vs {
+		v := v
+		forms := [nGridPolyForms]func(q orb.Point) bool{
+			func(q orb.Point) bool { return planar.PolygonContains(orb.Polygon{v}, q) },
+			func(q orb.Point) bool { return planar.PolygonContains(orb.Polygon{box, v}, q) },
+			func(q orb.Point) bool { return planar.PolygonContains(orb.Polygon{box, orb.Ring{}, v}, q) },
+			func(q orb.Point) bool { return planar.MultiPolygonContains(orb.MultiPolygon{{v}}, q) },
+			func(q orb.Point) bool { return planar.MultiPolygonContains(orb.MultiPolygon{{box, v}}, q) },
+			func(q orb.Point) bool { return planar.MultiPolygonContains(orb.MultiPolygon{{box, v}, {v}}, q) },
+		}
+		for _, f := range forms {
+			f := f
+			b := make([]byte, len(qs))
+			for j, q := range qs {
+				q := q
+				b[j] = ans(func() bool { return f(q) })
+			}
+			toks = append(toks, string(b))
+		}
+	}
+	return strings.Join(toks, " ")
+}
+
 func lattice(lo, hi int) []orb.Point {
 	var qs []orb.Point
 	for i := lo; i <= hi; i++ {
@@ -91,6 +127,11 @@ func runC09(op string, in []string) string {
 			lo, hi := r.int(), r.int()
 			rg := orb.Ring(r.pts())
 			return ringAnswers(rg, lattice(lo, hi))
+		case "gridp":
+			lo, hi := r.int(), r.int()
+			b0, b1 := float64(r.int()), float64(r.int())
+			rg := orb.Ring(r.pts())
+			return gridPolyAnswers(rg, gridBox(b0, b1), lattice(lo, hi))
 		case "poly":
 			pg := r.geom().(orb.Polygon)
 			qs := r.pts()
@@ -234,6 +275,34 @@ func holeBoundaryPts(r *rand.Rand, pg orb.Polygon) []orb.Point {
 	return qs
 }
 
+// outerBoundaryPts: points EXACTLY on the outer ring's boundary (a vertex, an edge's midpoint or quarter point, the
+// closing edge included) — for an outer ring of one or two vertices, or one without area, these are the only
+// points the polygon can contain.
+func outerBoundaryPts(r *rand.Rand, pg orb.Polygon) []orb.Point {
+	if len(pg) == 0 || len(pg[0]) == 0 {
+		return nil
+	}
+	o := pg[0]
+	m := 1
+	if len(o) < 3 || r.Intn(3) == 0 {
+		m = 3
+	}
+	var qs []orb.Point
+	for j := 0; j < m; j++ {
+		k := r.Intn(len(o))
+		a, b := o[k], o[(k+1)%len(o)]
+		switch (j + r.Intn(3)) % 3 {
+		case 0:
+			qs = append(qs, a)
+		case 1:
+			qs = append(qs, orb.Point{(a[0] + b[0]) / 2, (a[1] + b[1]) / 2})
+		default:
+			qs = append(qs, orb.Point{a[0] + (b[0]-a[0])/4, a[1] + (b[1]-a[1])/4})
+		}
+	}
+	return qs
+}
+
 func c09Line(rg orb.Ring, qs []orb.Point) string { return spts(rg) + " " + spts(qs) }
 
 func genC09(c *Ctx) {
@@ -285,6 +354,43 @@ func genC09(c *Ctx) {
 			}
 		}
 	}
+	// the same family THROUGH PolygonContains / MultiPolygonContains (op gridp): every ring of 0..3 vertices of the
+	// grid, in every variant, as Polygon{v}, Polygon{box, v}, Polygon{box, {}, v}, MultiPolygon{{v}},
+	// MultiPolygon{{box, v}}, MultiPolygon{{box, v}, {v}}; box = the grid's own square [off, off+3]^2, so every
+	// lattice point a grid ring can contain is in the box (on its boundary or inside) and the lattice's outermost
+	// layer is outside it.  1- and 2-vertex rings are thus exhaustively judged as outer rings and as holes; the
+	// 4-vertex rings are sampled.
+	gridPCase := func(rg orb.Ring, off int) {
+		c.Case("gridp", strconv.Itoa(2*off-1)+" "+strconv.Itoa(2*off+7)+" "+strconv.Itoa(off)+" "+strconv.Itoa(off+3)+" "+spts(rg))
+	}
+	if c.Shard == 0 {
+		for _, off := range offs {
+			gridPCase(orb.Ring{}, off)
+		}
+	}
+	for _, off := range offs {
+		for n := 1; n <= 3; n++ {
+			total := 1
+			for i := 0; i < n; i++ {
+				total *= 16
+			}
+			for code := 0; code < total && !c.Exhausted(); code++ {
+				idx++
+				if !c.Mine(idx) {
+					continue
+				}
+				gridPCase(gridRing(n, code, off), off)
+			}
+		}
+	}
+	np4 := 1000
+	if c.Tier == "thorough" {
+		np4 = 8000
+	}
+	for k := 0; k < np4/c.Shards+1 && !c.Exhausted(); k++ {
+		off := []int{0, -2, -4}[r.Intn(3)]
+		gridPCase(gridRing(4, r.Intn(65536), off), off)
+	}
 	n4 := 4000
 	allOffs := []int{0, -2, -4}
 	if c.Tier == "thorough" {
@@ -331,6 +437,7 @@ func genC09(c *Ctx) {
 			pg := genPolyC09(r, s)
 			qs := genQueriesC09(r, s, []orb.Ring(pg), 8+r.Intn(10))
 			qs = append(qs, holeBoundaryPts(r, pg)...)
+			qs = append(qs, outerBoundaryPts(r, pg)...)
 			c.Case("poly", gs(pg)+" "+spts(qs))
 		default: // multi-polygons
 			np := r.Intn(4)
@@ -346,14 +453,80 @@ func genC09(c *Ctx) {
 			qs := genQueriesC09(r, s, all, 8+r.Intn(10))
 			for _, pg := range mp {
 				qs = append(qs, holeBoundaryPts(r, pg)...)
+				qs = append(qs, outerBoundaryPts(r, pg)...)
 			}
 			c.Case("mpoly", gs(mp)+" "+spts(qs))
 		}
 	}
 }
 
+// genDegRingC09: rings WITHOUT AREA — all vertices equal (1..5 copies of one point), 2..6 collinear vertices in any
+// order along one line (fold-backs, repeats), or a short ring with every vertex doubled / wound twice / walked
+// there and back.  As an outer ring such a ring contains exactly its boundary (or, wound twice, its boundary only:
+// the doubly covered interior is outside by the even-odd rule); as a hole it removes exactly that.
+func genDegRingC09(r *rand.Rand, s c09Scale) orb.Ring {
+	switch r.Intn(3) {
+	case 0:
+		p := s.pt(r)
+		n := 1 + r.Intn(5)
+		rg := make(orb.Ring, n)
+		for i := range rg {
+			rg[i] = p
+		}
+		return rg
+	case 1:
+		a := s.pt(r)
+		u := 1 / float64(s.den)
+		d := orb.Point{u * float64(r.Intn(5)-2), u * float64(r.Intn(5)-2)}
+		if s.span*s.den > 40 && r.Intn(2) == 0 {
+			d = orb.Point{u * float64(r.Intn(2*s.span*s.den/8+1)-s.span*s.den/8), u * float64(r.Intn(2*s.span*s.den/8+1)-s.span*s.den/8)}
+		}
+		n := 2 + r.Intn(5)
+		rg := make(orb.Ring, 0, n)
+		for i := 0; i < n; i++ {
+			k := float64(r.Intn(5))
+			q := orb.Point{a[0] + k*d[0], a[1] + k*d[1]}
+			if q[0] < s.lo() || q[1] < s.lo() || q[0] > s.hi() || q[1] > s.hi() {
+				q = a
+			}
+			rg = append(rg, q)
+		}
+		return rg
+	default:
+		base := genRingC09(r, s, 1+r.Intn(3))
+		var rg orb.Ring
+		switch r.Intn(3) {
+		case 0: // every vertex doubled
+			for _, p := range base {
+				rg = append(rg, p, p)
+			}
+		case 1: // wound twice
+			rg = append(append(rg, base...), base...)
+		default: // there and back
+			rg = append(rg, base...)
+			for i := len(base) - 1; i >= 0; i-- {
+				rg = append(rg, base[i])
+			}
+		}
+		return rg
+	}
+}
+
+// genMemberRingC09: a ring of a polygon — any size 0..9 (a third: uniformly 0..9, so that 0, 1 and 2 vertices are
+// as frequent as the others), a ring without area (a sixth), else `usual` (the size range of a well-formed ring).
+func genMemberRingC09(r *rand.Rand, s c09Scale, usual func() int) orb.Ring {
+	switch r.Intn(6) {
+	case 0, 1:
+		return genRingC09(r, s, r.Intn(10))
+	case 2:
+		return genDegRingC09(r, s)
+	}
+	return genRingC09(r, s, usual())
+}
+
 // genPolyC09: an outer ring and 0..3 holes (random rings, so holes may overlap, touch or leave the outer ring —
-// the composition law "outer and no hole" is what is checked, not validity); rarely a zero-ring polygon.
+// the composition law "outer and no hole" is what is checked, not validity); outer rings AND holes of every size
+// 0..9 and without area (genMemberRingC09); rarely a zero-ring polygon.
 func genPolyC09(r *rand.Rand, s c09Scale) orb.Polygon {
 	if r.Intn(40) == 0 {
 		return orb.Polygon{}
@@ -363,15 +536,15 @@ func genPolyC09(r *rand.Rand, s c09Scale) orb.Polygon {
 		a, w := s.lo(), s.hi()
 		pg = append(pg, orb.Ring{{a, a}, {w, a}, {w, w}, {a, w}, {a, a}})
 	} else {
-		rg := genRingC09(r, s, 3+r.Intn(7))
-		if r.Intn(2) == 0 {
+		rg := genMemberRingC09(r, s, func() int { return 3 + r.Intn(7) })
+		if len(rg) > 0 && r.Intn(2) == 0 {
 			rg = append(rg, rg[0])
 		}
 		pg = append(pg, rg)
 	}
 	nh := r.Intn(4)
 	for i := 0; i < nh; i++ {
-		h := genRingC09(r, s, 3+r.Intn(4))
+		h := genMemberRingC09(r, s, func() int { return 3 + r.Intn(4) })
 		if r.Intn(4) == 0 && s.span*s.den >= 4 { // an axis-parallel box hole strictly inside the pool's range
 			u := 1 / float64(s.den)
 			x0 := s.lo() + u*float64(1+r.Intn(s.span*s.den-3))
@@ -380,7 +553,7 @@ func genPolyC09(r *rand.Rand, s c09Scale) orb.Polygon {
 			y1 := y0 + u*float64(1+r.Intn(int((s.hi()-u-y0)/u)))
 			h = orb.Ring{{x0, y0}, {x0, y1}, {x1, y1}, {x1, y0}}
 		}
-		if r.Intn(2) == 0 {
+		if len(h) > 0 && r.Intn(2) == 0 {
 			h = append(h, h[0])
 		}
 		if r.Intn(15) == 0 {
@@ -390,4 +563,3 @@ func genPolyC09(r *rand.Rand, s c09Scale) orb.Polygon {
 	}
 	return pg
 }
-
